@@ -43,12 +43,16 @@ pub struct Case {
     pub stdin_offset: usize,
     /// Some(schedule): the save runs as two live invocations of the same `fml compile … -o x.bc` under the cooperative scheduler
     pub overlap_save: Option<String>,
+    /// Some(schedule): the load (`fml execute` with the image on stdin) runs while ANOTHER `fml execute` with another program on
+    /// its stdin is alive, under the cooperative scheduler (they announce before opening anything for writing and before writes
+    /// to files): whatever scratch the tool uses, each must run its own program
+    pub overlap_load: Option<String>,
 }
 
 impl Case {
     pub fn to_json(&self) -> Value {
         json!({"engine": ENGINE, "property": self.property, "program": self.spec.to_json(), "profile": self.profile.name(), "writer": self.writer,
-               "action": self.action, "via_stdin": self.via_stdin, "plan": self.plan, "save_channel": self.save_channel, "save_plan": self.save_plan, "stale": self.stale, "hash_seed": self.hash_seed, "dev_stdin_pipe": self.dev_stdin_pipe, "env": self.env, "stdin_offset": self.stdin_offset, "overlap_save": self.overlap_save})
+               "action": self.action, "via_stdin": self.via_stdin, "plan": self.plan, "save_channel": self.save_channel, "save_plan": self.save_plan, "stale": self.stale, "hash_seed": self.hash_seed, "dev_stdin_pipe": self.dev_stdin_pipe, "env": self.env, "stdin_offset": self.stdin_offset, "overlap_save": self.overlap_save, "overlap_load": self.overlap_load})
     }
     pub fn from_json(v: &Value) -> Option<Case> {
         Some(Case {
@@ -67,6 +71,7 @@ impl Case {
             env: v.get("env").and_then(|e| e.as_array()).map(|a| a.iter().filter_map(|e| Some((e.get(0)?.as_str()?.to_string(), e.get(1)?.as_str()?.to_string()))).collect()).unwrap_or_default(),
             stdin_offset: v.get("stdin_offset").and_then(|x| x.as_u64()).unwrap_or(0) as usize,
             overlap_save: v.get("overlap_save").and_then(|x| x.as_str()).map(|s| s.to_string()),
+            overlap_load: v.get("overlap_load").and_then(|x| x.as_str()).map(|s| s.to_string()),
         })
     }
 }
@@ -107,7 +112,13 @@ pub fn check(case: &Case) -> Result<Option<Obs>, (String, String)> {
             junk.extend_from_slice(b"stale tail of an earlier, longer image");
             std::fs::write(dir.join("x.bc"), junk).unwrap();
         }
-        let mut c = if case.save_channel == "-o FILE" { Child::new(case.profile, &["compile", "x.json", "-o", "x.bc"]) } else { Child::new(case.profile, &["compile", "x.json"]) };
+        let other_image = foreign::encode(&foreign::boundary_pool_model(3));
+        if case.save_channel == "-o DIR" {
+            std::fs::create_dir_all(dir.join("outdir")).unwrap();
+            // durable state of an earlier build: the image of ANOTHER program already sits under the name the tool derives today
+            if case.stale { std::fs::write(dir.join("outdir").join("x.bc"), &other_image).unwrap(); }
+        }
+        let mut c = if case.save_channel == "-o FILE" { Child::new(case.profile, &["compile", "x.json", "-o", "x.bc"]) } else if case.save_channel == "-o DIR" { Child::new(case.profile, &["compile", "x.json", "-o", "outdir"]) } else { Child::new(case.profile, &["compile", "x.json"]) };
         if case.save_channel == "stdout>file" { c.stdout = super::proc::Out::File("x.bc".into()); }
         c.env = case.env.clone();
         c.shim = Some(ShimCfg { seed: case.hash_seed, plan: case.save_plan.clone(), clock: None, junk: 0, budget: Some(4_000_000), ..Default::default() });
@@ -123,6 +134,13 @@ pub fn check(case: &Case) -> Result<Option<Obs>, (String, String)> {
         children += 1;
         if !r.exit.is_success() { cleanup(&dir); return Ok(None); } // stage refusal (C06's subject) or a transient fault reported as an error
         if case.save_channel == "stdout|pipe" { std::fs::write(dir.join("x.bc"), &r.stdout).unwrap(); }
+        if case.save_channel == "-o DIR" {
+            // whatever name the tool derived: the one file of the directory (a stale image that was simply left alone is what is found then)
+            let mut names: Vec<std::path::PathBuf> = std::fs::read_dir(dir.join("outdir")).map(|rd| rd.filter_map(|e| e.ok()).map(|e| e.path()).collect()).unwrap_or_default();
+            names.sort();
+            let pick = names.iter().find(|p| std::fs::read(p).map(|b| b != other_image).unwrap_or(false)).or(names.first()).cloned();
+            match pick { Some(p) => { let _ = std::fs::copy(&p, dir.join("x.bc")); } None => { let _ = std::fs::write(dir.join("x.bc"), b""); } }
+        }
         // the image that reached the disk must be the image of this program, whatever the channel did
         {
             let bytes = std::fs::read(dir.join("x.bc")).unwrap_or_default();
@@ -174,7 +192,25 @@ pub fn check(case: &Case) -> Result<Option<Obs>, (String, String)> {
     let plan = case.plan.replace("$-1", &n_reads.saturating_sub(1).to_string()).replace("$-2", &n_reads.saturating_sub(2).to_string()).replace("$/2", &(n_reads / 2).to_string());
     let hard = plan.contains(":x:") || plan.contains(":y:");
     faulty.shim = Some(ShimCfg { seed: case.hash_seed, plan: plan.clone(), clock: None, junk: 0, budget: Some(4_000_000), ..Default::default() });
-    let r = run_child(&dir, &faulty);
+    let r = match (&case.overlap_load, case.via_stdin && case.stdin_offset == 0) {
+        (Some(sched), true) => {
+            let choices: Vec<u8> = sched.bytes().map(|b| b.wrapping_sub(b'0')).collect();
+            let other = vm::compile_source("print(\"the other program\\n\")\n").ok().and_then(|p| vm::serialize_to_vec(&p).ok()).unwrap_or_default();
+            let mut a = faulty.clone();
+            a.stdin = In::Pipe(std::fs::read(dir.join("x.bc")).unwrap_or_default());
+            let mut b = Child::new(case.profile, &["execute"]);
+            b.stdin = In::Pipe(other);
+            b.shim = Some(ShimCfg { seed: case.hash_seed ^ 9, ..Default::default() });
+            let (ra, rb, order) = super::proc::run_scheduled_pair(&dir, &a, &b, "openw,writef,rename,unlink", &choices);
+            children += 1;
+            if rb.exit != Exit::Timeout && (!rb.exit.is_success() || rb.stdout != b"the other program\n") {
+                cleanup(&dir);
+                return Err((format!("{}11:another_live_load_was_disturbed", if case.writer == "foreign" { "L" } else { "R" }), format!("two live `fml execute` with different programs on stdin (schedule `{}`): the other one ended with {} and {} bytes of stdout instead of printing its own line", order, rb.exit.show(), rb.stdout.len())));
+            }
+            ra
+        }
+        _ => run_child(&dir, &faulty),
+    };
     children += 1;
     cleanup(&dir);
     let fired = r.trace.lines().filter(|l| l.starts_with("R ") && (l.ends_with("cut") || l.ends_with("-> E4"))).count() as u64;
@@ -271,6 +307,7 @@ fn minimise(case: &Case, oracle: &str) -> Case {
     if !best.env.is_empty() { let mut c = best.clone(); c.env = vec![]; if still(&c) { best = c; } }
     if best.stdin_offset > 0 { let mut c = best.clone(); c.stdin_offset = 0; if still(&c) { best = c; } }
     if best.overlap_save.is_some() { let mut c = best.clone(); c.overlap_save = None; if still(&c) { best = c; } }
+    if best.overlap_load.is_some() { let mut c = best.clone(); c.overlap_load = None; if still(&c) { best = c; } }
     if let ProgSpec::Stmts(stmts) = &best.spec {
         let mut stmts = stmts.clone();
         let mut j = stmts.len();
@@ -324,7 +361,7 @@ pub fn run_layer_b(property: &str, seed: u64, tier: &str, ev: &mut Evidence) -> 
             action: if rng.below(4) == 0 { "disassemble".into() } else { "execute".into() },
             via_stdin,
             plan,
-            save_channel: (*rng.pick(&["-o FILE", "-o FILE", "stdout>file", "stdout|pipe"])).to_string(),
+            save_channel: (*rng.pick(&["-o FILE", "-o FILE", "stdout>file", "stdout|pipe", "-o DIR"])).to_string(),
             save_plan: String::new(),
             stale: rng.below(4) == 0,
             hash_seed: rng.next_u64(),
@@ -332,13 +369,15 @@ pub fn run_layer_b(property: &str, seed: u64, tier: &str, ev: &mut Evidence) -> 
             env: if rng.below(3) == 0 { super::proc::env_set(&mut rng) } else { vec![] },
             stdin_offset: 0,
             overlap_save: None,
+            overlap_load: None,
         };
         let mut case = case;
+        if case.via_stdin && case.action == "execute" && rng.below(5) == 0 { case.overlap_load = Some((0..10).map(|_| if rng.coin() { '1' } else { '0' }).collect()); case.plan = String::new(); }
         if case.writer == "fml" && case.save_channel == "-o FILE" && rng.below(6) == 0 { case.overlap_save = Some((0..10).map(|_| if rng.coin() { '1' } else { '0' }).collect()); case.stale = false; }
         if case.via_stdin && rng.below(4) == 0 { case.stdin_offset = *rng.pick(&[1usize, 20, 100, 5000, 9000]); if case.plan.contains('$') { case.plan = String::new(); } }
         if !case.via_stdin && rng.below(10) == 0 { case.dev_stdin_pipe = true; if case.plan.contains('$') || case.plan.contains(":x:") || case.plan.contains(":y:") { case.plan = String::new(); } }
         if rng.below(3) == 0 {
-            let c = if case.save_channel == "-o FILE" { 'f' } else { 'o' };
+            let c = if case.save_channel == "-o FILE" || case.save_channel == "-o DIR" { 'f' } else { 'o' };
             case.save_plan = match rng.below(5) {
                 0 => format!("{}:*:l:{}", c, rng.pick(&[1u32, 2, 3, 7, 64, 1023])), 1 => format!("{}:{}:s:{}", c, rng.below(3), 1 + rng.below(4)), 2 => format!("{}:{}:e:0", c, rng.below(3)),
                 // a passing error (EAGAIN on a pipe somebody switched to non-blocking, a passing EIO), alone or in a burst: the save may fail — an image that is reported saved is complete
